@@ -90,6 +90,7 @@ let run (hist : string) (impl : string) =
              if w = "PANIC" then fail "C25" "client-panics" 0 x;
              if w = "LEAK" then fail "C28" "goroutine-leak-or-hang" 0 x) xs;
          let s = ref cl_init in
+         let cm = ref cmon_init in
          let ievs = Array.of_list ievs in
          List.iteri (fun k (text, ev) ->
              incr nev;
@@ -101,9 +102,10 @@ let run (hist : string) (impl : string) =
              nout := !nout + List.length iouts;
              List.iter (fun (o : co) -> bump (kind_of o.text)) iouts;
              if iouts <> [] then Hashtbl.replace nontriv (hst.chline ^ text ^ String.concat "|" (List.map show iouts)) ();
+             let (fails, cm') = Chk_cl.step hst.ccfg !s ev (List.map (fun (o : co) -> (o.t, o.text)) iouts) !cm in
+             cm := cm';
              List.iter (fun (p, c) ->
-                 fail p c k (Printf.sprintf "event=%s impl=[%s]" text (String.concat "; " (List.map show iouts))))
-               (Chk_cl.step hst.ccfg !s ev (List.map (fun (o : co) -> (o.t, o.text)) iouts));
+                 fail p c k (Printf.sprintf "event=%s impl=[%s]" text (String.concat "; " (List.map show iouts)))) fails;
              let rec cmp ms is =
                match ms, is with
                | [], [] -> ()
